@@ -7,7 +7,7 @@ TRAIT_ATTRS = ["/// trait level docs", "#[allow(dead_code)]", "#[allow(clippy::a
                "#[deprecated]" if False else "#[allow(unused_variables)]"]
 METHOD_ATTRS = ["/// method docs", "#[allow(unused)]", "#[cfg(all())]", "#[must_use]", "#[doc(hidden)]"]
 
-PARAM_TYPES = ["i32", "i32", "u8", "bool", "str", "String", "tup", "N", "opt", "arr", "refi", "mutref"]
+PARAM_TYPES = ["i32", "i32", "u8", "bool", "str", "String", "tup", "N", "opt", "arr", "refi", "mutref", "dynref", "slice"]
 
 
 class MethodSpec:
@@ -119,7 +119,7 @@ def random_method(rng, name, allow_async=True, allow_generic=True, dyn_safe=Fals
         m.lifetimes.append("'b")
         m.ret_expr = nm
     if m.ret == "borrow_self":
-        if any(p.ty.key in ("str", "refi", "mutref") for p in m.params) or rng.random() < 0.4:
+        if any(p.ty.key in ("str", "refi", "mutref", "dynref", "slice") for p in m.params) or rng.random() < 0.4:
             m.lifetimes.insert(0, "'a")
             m.self_lt = "'a"
             m.typed_recv = m.typed_recv or rng.random() < 0.4   # `self: &'a Self`
